@@ -71,6 +71,38 @@ def run(chk):
         if not seen:
             chk.fail_closed(rid, "Op::resolve_constant: no arithmetic call found")
 
+    rid = "R12f"
+    chk.rule(rid, "Op::type_info looks up the right operand's constant in the state that already absorbed the left operand's effects", floor=2)
+    OP_TI = "<compiler::expression::op::Op as compiler::expression::Expression>::type_info"
+    ob = chk.anchor(OP_TI, rid)
+    if ob is not None:
+        import typestate as ts_
+        lhs_states = set()
+        for fb in [facts.body(n) for n in facts.family(OP_TI)]:
+            if fb.name != OP_TI:
+                continue
+            for bb, t in fb.calls():
+                if fb.callee(t).endswith("::apply_type_info") or (t.get("fn") or "").endswith("::apply_type_info"):
+                    l = op_local(t["args"][0]); r = cfgq.ref_root(fb, l) if l is not None else None
+                    if r and r[0] == 1 and "lhs" in r[1]:
+                        sl = op_local(t["args"][1]); sr_ = cfgq.ref_root(fb, sl) if sl is not None else None
+                        if sr_:
+                            lhs_states.add(sr_[0])
+            for bb, t in fb.calls():
+                if (t.get("fn") or "").endswith("::resolve_constant") or fb.callee(t).endswith("::resolve_constant"):
+                    l = op_local(t["args"][0]); r = cfgq.ref_root(fb, l) if l is not None else None
+                    if not (r and r[0] == 1 and "rhs" in r[1]):
+                        continue
+                    sl = op_local(t["args"][1]); sr_ = cfgq.ref_root(fb, sl) if sl is not None else None
+                    d = {"fn": OP_TI, "at": "%s:%s" % (fb.file, t["ln"]), "state_local": sr_[0] if sr_ else None,
+                         "state_after_lhs": sorted(lhs_states), "state_name": fb.local_name(sr_[0]) if sr_ else None}
+                    ok = bool(sr_) and sr_[0] in lhs_states
+                    chk.instance(rid, d, ok=ok)
+                    if not ok:
+                        chk.violation(rid, fb.file, OP_TI, "rhs constant read from a stale state",
+                                      "Op::type_info evaluates the right operand's constant in `%s`, not in the state after the left operand: `(x = 0) / x` "
+                                      "is typed with x's old constant" % d["state_name"], detail=d, loc=d["at"])
+
     rid = "R12d"
     chk.rule(rid, "closure parameters are bound with value: None unless VariableKind::Target", floor=1)
     b = chk.anchor(CHECK_CLOSURE, rid)
